@@ -5,7 +5,6 @@ package c08
 
 import (
 	"bytes"
-	"encoding/base64"
 	"fmt"
 	"io"
 	"net/http"
@@ -32,7 +31,7 @@ func interleavedChunks(d Directed, v *vt.V) {
 		v.Excluded("interleaved-chunks")
 		return
 	}
-	n := max(d.Size, 1)
+	n := max(d.Size, 2)
 	mem := ocimem.New()
 	srv := memnet.NewServer(ociserver.New(mem, nil))
 	defer srv.Close()
@@ -45,18 +44,21 @@ func interleavedChunks(d Directed, v *vt.V) {
 		}
 		resp.Body.Close()
 		loc := resp.Header.Get("Location")
-		idb, err := base64.RawURLEncoding.DecodeString(loc[strings.LastIndex(loc, "/")+1:])
-		if err != nil {
-			v.Failf("harness", "upload location %q: %v", loc, err)
-			return
-		}
-		id := string(idb)
+		// what the session holds, as the registry itself reports it for the upload's Location
 		size := func() int64 {
-			w, err := mem.PushBlobChunkedResume(ctx, "foo", id, -1, 0)
+			resp, err := client.Get(srv.URL + loc)
 			if err != nil {
 				return -1
 			}
-			return w.Size()
+			resp.Body.Close()
+			var a, b int64
+			if _, err := fmt.Sscanf(resp.Header.Get("Range"), "%d-%d", &a, &b); err != nil || resp.StatusCode/100 != 2 {
+				return -1
+			}
+			if b == 0 {
+				return 0 // "0-0" stands for an empty upload as well as for one byte: n >= 2 here
+			}
+			return b + 1
 		}
 		p1, p2, b := strings.Repeat("a", n), strings.Repeat("A", n), "BBBB"
 		pr, pw := io.Pipe()
